@@ -336,6 +336,34 @@ def c114(ctx):
                   "%s compares kr.timestamp <= self.timestamp (%d sites)" % (m, len(cmps)), "%s no longer filters entries by `timestamp <= snapshot`" % m)
         vt = value_tests(f)
         ctx.check(R, f, "tombstone-test", bool(vt), "%s tests value() for tombstones" % m, "%s no longer recognises tombstones" % m)
+    # forward scans (seek and next are siblings): an entry is accepted (set_skip_key, then return without moving on) only
+    # after it has been screened against skip_key -- the tombstone arm of the same loop sets skip_key to hide the older
+    # versions beneath the tombstone, and only this screen honours it.
+    for m in ("seek", "next"):
+        f = ctx.fn(R, "<sst::pruning_cursor::PruningCursor as sst::Cursor>::" + m)
+        if not f:
+            continue
+        moves = [pt for name, pt in cursor_calls(f) if name in ("next", "prev", "seek")]
+        ssk = P.call_points(f, r"PruningCursor::set_skip_key$")
+        accept = [p_ for p_ in ssk if P.reach(f, P.after(f, p_), P.return_points(f), avoid=set(moves) | set(P.error_points(f))) is not None]
+        ctx.check(R, f, "accept-site", bool(accept), "%s has an accepting exit (set_skip_key then return)" % m, "%s has no accepting exit" % m)
+        screens = []
+        for b, t in f.calls():
+            ck = callee_skey(t) or ""
+            if re.search(r"Option::(is_none|is_some)$|::(ne|eq)$|PartialEq", ck):
+                if any(s_["k"] == "field" and s_["f"] == "skip_key" for a in t["args"] for s_ in P.origins(f, a)):
+                    screens.append(P.term_pt(f, b.idx))
+        for p_ in accept:
+            q = None
+            for mv_ in moves:
+                q = q or P.reach(f, P.after(f, mv_), [p_], avoid=set(screens))
+            ctx.check(R, f, "skip-key-screen", bool(screens) and q is None,
+                      "%s accepts an entry only after comparing its key with skip_key" % m,
+                      "%s accepts an entry without screening it against skip_key: after a tombstone the older versions of the same key "
+                      "beneath it are returned (a deleted key reappears)" % m, pt=p_, path=q)
+        tomb = [p_ for p_ in ssk if p_ not in accept]
+        ctx.check(R, f, "tombstone-sets-skip-key", bool(tomb), "%s: the tombstone arm records the key in skip_key and moves on" % m,
+                  "%s: a tombstone no longer records its key in skip_key" % m)
     f = ctx.fn(R, "sst::pruning_cursor::PruningCursor::new")
     if f:
         n = 0
